@@ -1,5 +1,5 @@
 (** Property C13 — Copeland ranks by pairwise victories and reports consistent features. *)
-From Corankco Require Import Prelude Scheme Rank KemenySpec CostTable CostTableProof GroupSort Copeland CopelandProof.
+From Corankco Require Import Prelude Scheme Rank KemenySpec CostTable CostTableProof GroupSort Copeland CopelandProof Scaling CopelandScale.
 Local Open Scope Z_scope.
 
 (** an element earns a victory over an opponent exactly when it is cheaper (by the definition of the
@@ -42,3 +42,9 @@ Theorem C13_wf : forall s D,
   Permutation (elems (copeland s D)) (universe D) /\ Forall (fun b => b <> []) (copeland s D).
 Proof. exact copeland_wf. Qed.
 Print Assumptions C13_wf.
+
+(** the consensus does not depend on which positive multiple of the scheme is given (the theorem behind the scaled schemes of the
+    correspondence runs: the library gets the scheme times 2^k, the model keeps the scheme of the case) *)
+Theorem C13_scale_invariant : forall k s D, 0 < k -> copeland (scale_scheme k s) D = copeland s D.
+Proof. exact copeland_scale. Qed.
+Print Assumptions C13_scale_invariant.
